@@ -1,3 +1,4 @@
+import Aldy.Generated.Constants
 /-!
 Model of `aldy/diplotype.py: estimate_diplotype` (lines 224-308), of the natural-sort key
 (natsort's default INT algorithm on allele names) and of the name rendering
@@ -223,7 +224,14 @@ structure AddedMut where
   op : String
   rsid : String              -- `gene.mutations[m][1]` or "-" when not catalogued
   functional : Bool          -- `gene.is_functional(m, infer=False)`
+  refPos : Int := 0          -- `gene.chr_to_ref.get(m.pos, m.pos)`: RefSeq position, the order key of the name
 deriving Repr
+
+/-- order of the added variants in a name: by RefSeq position when the code sorts that way
+(`Const.NAME_ORDER_BY_REFSEQ`, regenerated from `get_major_name`), else by genome position -/
+def addedLt (a b : AddedMut) : Bool :=
+  if Const.NAME_ORDER_BY_REFSEQ then a.refPos < b.refPos || (a.refPos == b.refPos && a.op < b.op)
+  else a.pos < b.pos || (a.pos == b.pos && a.op < b.op)
 
 /-- `gene.get_rsid(m)`: the rsid, or `pos+1.op` when there is none -/
 def rsidOf (m : AddedMut) : String := if m.rsid != "-" then m.rsid else s!"{m.pos + 1}.{m.op}"
